@@ -438,6 +438,11 @@ func (c *c20case) build() []*c20rec {
 		if len(r.outs) > 1 {
 			r.cmd += " && cp " + r.outs[0] + " " + r.outs[1]
 		}
+		if i%2 == 1 {
+			// a command whose non-final part fails harmlessly (grep without hits, ...): scipipe ran it
+			// with plain "bash -c", where only the last status counts; replaying it must do the same
+			r.cmd = "false; " + r.cmd
+		}
 	}
 	for i := range recs {
 		fill(i)
